@@ -52,15 +52,15 @@ var (
 	nullVal      = &Val{Kind: Null}
 )
 
-func Undef() *Val           { return undefinedVal }
-func NullV() *Val           { return nullVal }
-func BoolV(b bool) *Val     { return &Val{Kind: Bool, B: b} }
-func NumV(f float64) *Val   { return &Val{Kind: Number, N: f} }
-func StrV(u []uint16) *Val  { return &Val{Kind: String, S: u} }
-func StrS(s string) *Val    { return &Val{Kind: String, S: U(s)} }
-func NewObject() *Val       { return &Val{Kind: Object} }
-func NewArray(n int) *Val   { return &Val{Kind: Array, Elems: make([]*Val, n)} }
-func (v *Val) IsObj() bool  { return v.Kind == Object || v.Kind == Array || v.Kind == Function }
+func Undef() *Val            { return undefinedVal }
+func NullV() *Val            { return nullVal }
+func BoolV(b bool) *Val      { return &Val{Kind: Bool, B: b} }
+func NumV(f float64) *Val    { return &Val{Kind: Number, N: f} }
+func StrV(u []uint16) *Val   { return &Val{Kind: String, S: u} }
+func StrS(s string) *Val     { return &Val{Kind: String, S: U(s)} }
+func NewObject() *Val        { return &Val{Kind: Object} }
+func NewArray(n int) *Val    { return &Val{Kind: Array, Elems: make([]*Val, n)} }
+func (v *Val) IsObj() bool   { return v.Kind == Object || v.Kind == Array || v.Kind == Function }
 func (v *Val) IsUndef() bool { return v == nil || v.Kind == Undefined }
 
 // U converts a Go string to UTF-16 code units.
